@@ -118,6 +118,7 @@ func TestVerifC09(t *testing.T) {
 								continue
 							}
 							if rep.OutOfBudget() {
+								rep.Cap("budget")
 								return
 							}
 							c09Run(rep, srv, a, s.path, a.Reps[id], ato, d, start, n, quick)
@@ -237,6 +238,10 @@ func c09Run(rep *vh.Report, srv *Server, a *vref.VAsset, asset string, r *vref.V
 		sampleMS *= 2 // the audio segment itself starts up to one frame after the video segment (C03)
 	}
 	for _, t := range ts {
+		if rep.OutOfBudget() {
+			rep.Cap("budget")
+			return
+		}
 		url := fmt.Sprintf("%s/%s/%s?nowMS=%d", vCfgPrefix(parts...), asset, name, t)
 		body := func(s *vrt.Sched, out *c09Writer) {
 			out.s = s
